@@ -477,6 +477,20 @@ func runC06(c *core.Ctx) error {
 		}
 		return false, ""
 	})
+	// ---- R06.7
+	r7 := c.NewRule("R06.7", "S1+S2", "generated parameter decoders: unescape only under argsEscaped, object decoders carry their member list; uri: no one-sided normalisation, no reused buffer stored; shape guard gets a fresh visited set", 25)
+	prog7, err := c.Program("./uri", "./gen")
+	if err != nil {
+		return err
+	}
+	checkUriSidesSymmetric(c, r7, prog7)
+	checkFreshVisitedSets(c, r7, prog7, pkgGen)
+	ex7, err := c.Expand(fixtureNames(c))
+	if err != nil {
+		r7.Undecided("expand", "-", trimPosMsg(err.Error(), 400))
+		return nil
+	}
+	checkParamDecoderShapes(c, r7, ex7)
 	return nil
 }
 
